@@ -15,7 +15,8 @@ import (
 )
 
 // Branch names of spec/TxnGen.tla (Brs).
-var Brs = []string{"a", "b", "c", "d"}
+// (real names: two of them share a first path segment - branch names may contain "/")
+var Brs = []string{"team/a", "team/b", "c", "x/y/d"}
 
 // Obs is one observation <<ok, status, staged, <<depth, nlog, nobj>>...>> as TxnGen
 // exports it and as the harness projects the real repository.
